@@ -30,6 +30,23 @@ def corpus():
     return _corpus
 
 
+_pool = None
+CURRENT_TIER = "quick"
+POOL_SHARE = 0.4
+
+
+def pool():
+    """Shipped validation-set reactions pre-screened by tools/build_pool.py (thorough tiers only)."""
+    global _pool
+    if _pool is None:
+        try:
+            with open(os.path.join(HERE, "corpus", "validation_pool.json")) as f:
+                _pool = [it["rsmi"] for it in json.load(f)]
+        except OSError:
+            _pool = []
+    return _pool
+
+
 def rng_for(base_seed, prop, i):
     return random.Random(H(base_seed, prop, i))
 
@@ -41,6 +58,9 @@ def pick_rows(rng, n, weights=None):
     tags = list((weights or {}).items())
     total = sum(w for _, w in tags) + 1.0
     for _ in range(n):
+        if CURRENT_TIER == "thorough" and pool() and rng.random() < POOL_SHARE:
+            out.append(rng.choice(pool()))
+            continue
         u = rng.random() * total
         acc = 0.0
         chosen = None
